@@ -3,7 +3,7 @@ Model of what the parser and the option interpreter do with a (possibly negated)
 * `numLit`: the grammar action of `numLit` in parser/proto.y — which AST node a numeric token becomes
   (`'-' _INT_LIT` is an int64 node up to 2^63, a float node above);
 * `negWrap`: `ast.NewNegativeIntLiteralNode`, `Val: -int64(i.Val)` — what the grammar rule
-  `enumValueNumber : '-' _INT_LIT` (enum value numbers, enum reserved ranges) builds WITHOUT a guard;
+  `enumValueNumber : '-' _INT_LIT` (enum value numbers, enum reserved ranges) builds WITHOUT a guard (AsInt64 of the node rejects magnitudes above 2^63 since the repair);
 * `scalarValue`: `options.scalarFieldValue` for the numeric target types (default values, option
   values, message-literal fields);
 * `enumNumber`, `fieldTag`, `reservedStart`: `ast.AsInt32` + `checkTag` / `getRangeBounds` of parser/result.go.
@@ -60,7 +60,8 @@ def scalarValue (t : STy) (nd : Node) : Option (Option Int) :=
 
 /-- `ast.AsInt32(node, lo, hi)` on the node of `enumValueNumber` / a range bound -/
 def asInt32 (neg : Bool) (n : Nat) (lo hi : Int) : Option Int :=
-  let v? : Option Int := if neg then some (negWrap n) else if n ≤ 2 ^ 63 - 1 then some (n : Int) else none
+  -- NegativeIntLiteralNode.AsInt64 answers (0, false) when the magnitude exceeds 2^63 (the wrapped Val is not used)
+  let v? : Option Int := if neg then (if n ≤ 2 ^ 63 then some (negWrap n) else none) else if n ≤ 2 ^ 63 - 1 then some (n : Int) else none
   match v? with
   | some v => if v < lo ∨ v > hi then none else some v
   | none => none
